@@ -8,12 +8,14 @@ from decimal import Decimal
 
 import numbers_parser.cell as cellmod
 from numbers_parser.cell import (_format_base, _format_currency, _format_decimal, _format_fraction, _format_scientific)
-from numbers_parser.constants import DECIMAL_PLACES_AUTO
+from numbers_parser.cell import NumberCell
+from numbers_parser.constants import DECIMAL_PLACES_AUTO, CellType, FormatType
 from numbers_parser.currencies import CURRENCY_SYMBOLS
 
 from sigfig import round as REAL_SIGFIG
 
-from pysym.api import BoolDom, Cases, DecFloatDom, Harness, IntDom, assume, concretize, cover, is_symbolic, nondet_int, nondet_str
+from pysym.api import (BoolDom, Cases, DecFloatDom, Harness, IntDom, assume, concretize, cover, is_symbolic, nondet_int,
+                       nondet_str, round15)
 
 
 class Rec:
@@ -200,6 +202,7 @@ def numeric_sigfig(x, *args, **kw):
 
 def _numeric_sigfig(x, args, kw):
     if not isinstance(x, str):
+        x = round15(x)                              # 15 significant digits: a product's rounding noise is gone
         if kw.get("type") is not str:
             return x
         tup = Decimal(repr(abs(x))).as_tuple()
@@ -286,6 +289,123 @@ def h13_decimal_num(x, negative_style, thousands, places, percent):
         assert out.startswith("-")
     if not neg:
         assert "-" not in out and "(" not in out
+
+
+# ------------------------------------------------------------------------------------------------ percent / dispatch
+class FormatRec:
+    """a format archive as _custom_format reads it"""
+
+    def __init__(self, **kw):
+        self.__dict__.update(kw)
+
+    def HasField(self, name):
+        return False
+
+
+class FormatModel:
+    def __init__(self, fmt):
+        self.fmt = fmt
+
+    def table_format(self, table_id, key):
+        return self.fmt
+
+
+def number_cell(x, fmt):
+    cell = object.__new__(NumberCell)
+    cell.row = 0
+    cell.col = 0
+    cell._table_id = 7
+    cell._type = CellType.NUMBER
+    cell._value = x
+    cell._d128 = x
+    cell._num_format_id = 1
+    cell._model = FormatModel(fmt)
+    return cell
+
+
+def h13_percent(x, negative_style, thousands, places):
+    """percentage format through the real Cell._custom_format: the stored value times 100 (a float product that is
+    usually NOT the decimal it looks like - 0.29 * 100 is 28.999999999999996) displayed with a % sign; read back it is
+    the value times 100 rounded to the decimals shown"""
+    del REG[:]
+    assume(0 <= negative_style <= 3)
+    fmt = FormatRec(format_type=FormatType.PERCENT, negative_style=negative_style, show_thousands_separator=thousands,
+                    decimal_places=places)
+    out = number_cell(x, fmt)._custom_format()
+    assert out.count("%") == 1 and out.replace(")", "").endswith("%")
+    text = strip(out)
+    parts = text.split(".")
+    assert 1 <= len(parts) <= 2 and len(parts[0]) >= 1
+    ip = parts[0]
+    fp = parts[1] if len(parts) == 2 else ""
+    if places != DECIMAL_PLACES_AUTO:
+        assert len(fp) == places
+    shown = int(ip + fp)
+    tup = Decimal(repr(abs(x))).as_tuple()
+    D = 0
+    for d in tup.digits:
+        D = D * 10 + d
+    a = -len(fp)
+    b = tup.exponent + 2                      # times 100
+    lo = min(a, b)
+    left = shown * 10 ** (a - lo)
+    right = D * 10 ** (b - lo)
+    unit = 10 ** (a - lo)
+    if places == DECIMAL_PLACES_AUTO:
+        assert left == right
+    else:
+        assert -unit <= 2 * (left - right) <= unit
+
+
+CALLS13 = []
+
+
+def rec_decimal(value, fmt, percent=False):
+    CALLS13.append(("decimal", value, percent))
+    return "D"
+
+
+def rec_currency(value, fmt):
+    CALLS13.append(("currency", value, False))
+    return "C"
+
+
+def rec_base(value, fmt):
+    CALLS13.append(("base", value, False))
+    return "B"
+
+
+def rec_fraction(value, fmt):
+    CALLS13.append(("fraction", value, False))
+    return "F"
+
+
+def rec_scientific(value, fmt):
+    CALLS13.append(("scientific", value, False))
+    return "S"
+
+
+def h13_dispatch(n, ftype):
+    """Cell._custom_format hands the stored value to the formatter of its format type - unchanged, except that a
+    percentage is multiplied by 100; a rating shows as many stars as the value"""
+    del CALLS13[:]
+    if ftype == int(FormatType.RATING):
+        assume(0 <= n <= 5)
+    fmt = FormatRec(format_type=ftype)
+    out = number_cell(float(n), fmt)._custom_format()
+    want = {int(FormatType.DECIMAL): ("decimal", n, False), int(FormatType.CURRENCY): ("currency", n, False),
+            int(FormatType.PERCENT): ("decimal", n * 100, True), int(FormatType.BASE): ("base", n, False),
+            int(FormatType.FRACTION): ("fraction", n, False), int(FormatType.SCIENTIFIC): ("scientific", n, False)}
+    if ftype in want:
+        assert len(CALLS13) == 1
+        kind, value, percent = CALLS13[0]
+        assert (kind, percent) == (want[ftype][0], want[ftype][2])
+        assert value == want[ftype][1]
+        assert out == kind[0].upper()
+    elif ftype == int(FormatType.RATING):
+        assert out == "\u2605" * n
+    else:
+        assert CALLS13 == []
 
 
 # ------------------------------------------------------------------------------------------------ number bases
@@ -560,6 +680,34 @@ DECNUM_T = [(n, e) for n in (1, 2, 3, 5, 9, 15) for e in (-7, -3, -2, -1, 0, 1, 
 HARNESSES += [_decnum(n, e) for n, e in DECNUM_T]
 
 
+def _percent(n, e):
+    return Harness(f"H13-percent-n{n}-e{e}", h13_percent,
+                   lambda tier: dict(x=DecFloatDom(n, e), negative_style=IntDom(), thousands=BoolDom(),
+                                     places=Cases([DECIMAL_PLACES_AUTO, 0, 2] if tier == "quick" else [DECIMAL_PLACES_AUTO, 0, 1, 2, 3])),
+                   bounds=f"every stored value whose shortest decimal form has {n} significant digits (symbolic) at decimal exponent {e}, "
+                          "both signs; the product value * 100 carries up to 2 ulp of rounding noise in either direction (symbolic)",
+                   stubs=["sigfig.round replaced by its numeric contract (see H13-decimal-num)",
+                          "float product x * 100 of a <= 13-digit decimal: the decimal shifted by two places, up to 2 ulp away from "
+                          "its nearest double in an unknown direction (two roundings); integrality / truncation / 15-digit rounding "
+                          "of such a value are exact functions of the decimal and the noise",
+                          "format archive and model = attribute bags"],
+                   patches=[(cellmod, "sigfig", numeric_sigfig)])
+
+
+PCT_Q = [(n, e) for n in (1, 2, 4) for e in (-3, -2, -1, 0, 1)]
+PCT_T = [(n, e) for n in (1, 2, 3, 4, 8, 13) for e in (-6, -3, -2, -1, 0, 1, 3, 9)]
+HARNESSES += [_percent(n, e) for n, e in PCT_T]
+HARNESSES.append(
+    Harness("H13-dispatch", h13_dispatch,
+            dict(n=IntDom(-(10 ** 9), 10 ** 9), ftype=Cases(sorted(int(t) for t in FormatType))),
+            bounds="every FormatType of the real enum; stored value any integer up to 10^9 in magnitude (exactly representable, so the "
+                   "percent product is exact)",
+            stubs=["the six formatters replaced by recorders; format archive and model = attribute bags"],
+            patches=[(cellmod, "_format_decimal", rec_decimal), (cellmod, "_format_currency", rec_currency),
+                     (cellmod, "_format_base", rec_base), (cellmod, "_format_fraction", rec_fraction),
+                     (cellmod, "_format_scientific", rec_scientific)]))
+
+
 def _sci(n, e):
     return Harness(f"H13-sci-n{n}-e{e}", h13_sci, lambda tier: dict(x=DecFloatDom(n, e), places=Cases([0, 1, 2, 5, 14] if tier == "quick" else list(range(0, 15)))),
                    bounds=f"every float whose shortest decimal form has {n} significant digits (symbolic) at decimal exponent {e}, both "
@@ -575,7 +723,9 @@ SCI_T = [(n, e) for n in range(1, 16) for e in (-290, -100, -20, -5, -4, -1, 0, 
 HARNESSES += [_sci(n, e) for n, e in SCI_T]
 _NEW = ["H13-base", "H13-base-round", "H13-twos", "H13-fraction", "H13-fraction-n"]
 TIER_HARNESSES = {"quick": ["H13-decimal", "H13-currency"] + _NEW + [f"H13-sci-n{n}-e{e}" for n, e in SCI_Q] +
-                           [f"H13-decimal-num-n{n}-e{e}" for n, e in DECNUM_Q],
+                           [f"H13-decimal-num-n{n}-e{e}" for n, e in DECNUM_Q] + [f"H13-percent-n{n}-e{e}" for n, e in PCT_Q] +
+                           ["H13-dispatch"],
                   "thorough": ["H13-decimal", "H13-currency"] + _NEW + [f"H13-sci-n{n}-e{e}" for n, e in SCI_T] +
-                              [f"H13-decimal-num-n{n}-e{e}" for n, e in DECNUM_T]}
+                              [f"H13-decimal-num-n{n}-e{e}" for n, e in DECNUM_T] + [f"H13-percent-n{n}-e{e}" for n, e in PCT_T] +
+                              ["H13-dispatch"]}
 PROPERTY = "C13"
